@@ -215,6 +215,35 @@ def gen_partial_order(rng):
     return {"world": world, "vars": vars_, "derived": [], "cond": c, "select": [["var", n] for n in sel], "mode": "set_of"}
 
 
+def gen_scalar_vars(rng, falsy=True):
+    """variables ranging over plain ints (0 is falsy) compared with literals, with each other and with attributes"""
+    world = G.gen_world(rng)
+    lo = 0 if falsy else 1
+    vars_ = [{"name": "n", "type": "int", "vals": sorted(rng.sample(range(lo, lo + 5), rng.randint(1, 4))), "dom": [], "kind": rng.choice(["list", "gen"])}]
+    if rng.random() < 0.5:
+        vars_.append({"name": "k", "type": "int", "vals": sorted(rng.sample(range(lo, lo + 4), rng.randint(1, 3))), "dom": [], "kind": "list"})
+    if rng.random() < 0.5:
+        vars_ += gen_vars(rng, world, 1, allow_empty=False)
+    names = [v["name"] for v in vars_]
+
+    def term(nm):
+        return ["var", nm] if nm in ("n", "k") else ["attr", ["var", nm], rng.choice("ab")]
+
+    def atom():
+        a, b = rng.choice(names), rng.choice(names)
+        if rng.random() < 0.5:
+            return ["cmp", rng.choice(CMP), term(a), ["lit", rng.randint(lo, lo + 3)]]
+        return ["cmp", rng.choice(CMP), term(a), term(b)]
+
+    c = atom()
+    for _ in range(rng.randint(0, 2)):
+        c = ["and", c, atom()]
+    if rng.random() < 0.2:
+        c = ["or", c, ["cmp", rng.choice(CMP), ["var", "n"], ["lit", rng.randint(lo, lo + 3)]]]
+    sel = rng.sample(names, rng.randint(1, len(names)))
+    return {"world": world, "vars": vars_, "derived": [], "cond": c, "select": [["var", x] for x in sel], "mode": "set_of"}
+
+
 def gen_fnfalsy(rng):
     """a symbolic function whose value may be falsy (0) used as comparator operand"""
     world = G.gen_world(rng)
